@@ -3,7 +3,7 @@ package rules
 func init() {
 	register(&Prop{
 		ID:    "C05",
-		Rules: []*Rule{rAssertOK},
+		Rules: []*Rule{rAssertOK, rBounds},
 		Explain: "Decides, for every site in /repo's hand-written source, structural necessary conditions of 'DecodeError and the decoded error's methods never panic': " +
 			"no unchecked type assertion on wire-controlled values (R-ASSERT-OK). " +
 			"NOT decided: panics inside dependencies (gogo/protobuf UnmarshalAny, grpc status), arbitrary fuzzed bytes, and panic classes other than failed type assertions, out-of-range indexing and nil dereference of decoder-built fields.",
